@@ -241,7 +241,7 @@ def sink_stream(rng, length, *, p_hdr=0.12, p_bad=0.12, p_seq=0.06, p_gap=0.15, 
 
 
 def raw_traces(rng, tier):
-    n = 30 if tier == "quick" else 150
+    n = 20 if tier == "quick" else 150
     out = []
     for k in range(n):
         L = rng.randint(20, 160)
@@ -288,7 +288,7 @@ def stub_traces(target, rng, tier, *, restarts):
     Half of the traces come from a polite partner (waits for the first credits, spaces its headers so that a credit
     has always come back, is served without stalls), the others stress the counters with arbitrary event timing
     (the partner's credit rules are then usually broken at some point; correspondence still applies)."""
-    n = 24 if tier == "quick" else 120
+    n = 18 if tier == "quick" else 120
     hw = target.params["hw"]; nbuf = target.params["n"]
     out = []
     for k in range(n):
@@ -324,7 +324,7 @@ def full_traces(target, rng, tier, *, restarts):
     """The complete receiver: a link-partner script (header packets with good / corrupted CRCs and right / wrong
     sequence numbers, retries after corrupted headers) tracked against a prediction of the receiver's expected
     sequence number, so that most headers are acceptable when they arrive; plus junk words and invalid gaps."""
-    n = 16 if tier == "quick" else 80
+    n = 12 if tier == "quick" else 80
     out = []
     for k in range(n):
         st = _ctrl_profile(rng, restarts)
